@@ -316,7 +316,7 @@ class C13(BaseCheck):
         for t in range(nthreads):
             ops = []
             for _ in range(k.choice([1, 1, 2, 3, 4, 6]) if tier == 'quick' else k.choice([1, 2, 3, 4, 6, 9])):
-                kind = r.choice(['filter', 'filter', 'filter', 'filter', 'limit', 'hold', 'callheld', 'scan', 'bad', 'recheck', 'spoil', 'chain'])
+                kind = r.choice(['filter', 'filter', 'filter', 'filter', 'limit', 'hold', 'callheld', 'scan', 'bad', 'recheck', 'spoil', 'chain', 'other'])
                 if kind == 'filter':
                     ops.append({'op': 'filter', 'f': r.randrange(len(pool))})
                 elif kind == 'limit':
@@ -333,6 +333,10 @@ class C13(BaseCheck):
                     ops.append({'op': 'bad', 'b': r.randrange(len(BAD_FILTERS))})
                 elif kind == 'spoil':
                     ops.append({'op': 'spoil'})
+                elif kind == 'other':
+                    # the same (possibly already compiled) filter evaluated on a DIFFERENT grid: the answer belongs to
+                    # the grid it is asked of, not to the grid the filter was first used on
+                    ops.append({'op': 'other', 'f': r.randrange(len(pool))})
                 elif kind == 'chain':
                     # a filter evaluated on the RESULT of another filter: a reference whose target row is not in
                     # the sub-grid does not resolve there, whatever it resolved to on the full grid earlier
@@ -492,7 +496,7 @@ class C13(BaseCheck):
         solo = v.get('solo') if v else None
         if not solo:
             return res
-        spec = {'nrows': HIST_ROWS, 'tags': {}, 'refs': {}} if solo.get('hist') else case['grid']
+        spec = {'nrows': HIST_ROWS, 'tags': {}, 'refs': {}} if solo.get('hist') else solo.get('spec2') or case['grid']
         sres = run_isolated(self, {'class': 'solo', 'grid': spec, 'text': solo['text'], 'limit': solo.get('limit', 0),
                                    'chain': solo.get('chain'), 'knobs': {'warm': True}})
         rows = sres.get('solo_rows')
@@ -635,6 +639,11 @@ class C13(BaseCheck):
                 sim.hooks[knobs['gc_at']] = do_gc
 
             results = []     # (tid, opidx, kind, filter text, expected, got | ('exc', name, msg))
+            # a second grid with other content: every tag moved one row on, references re-pointed
+            n_ = spec['nrows']
+            spec2 = {'nrows': n_, 'tags': {t: sorted((j + 1) % n_ for j in m_) for t, m_ in spec['tags'].items()},
+                     'refs': {str((int(j) + 1) % n_): (v + 2) % n_ for j, v in spec['refs'].items()}}
+            grid2 = build_grid(hs, spec2)
 
             def make_body(tid, prog, grid):
                 def body():
@@ -688,6 +697,14 @@ class C13(BaseCheck):
                                 results.append((tid, oi, 'bad', b, 'exception', got))
                             except Exception as e:
                                 results.append((tid, oi, 'bad', b, 'exception', ('exc', type(e).__name__, '')))
+                        elif op == 'other':
+                            f = pool[o['f'] % len(pool)]
+                            want = expected_rows(spec2, f)
+                            try:
+                                got = self._ids(grid2.filter(f['text']))
+                            except Exception as e:
+                                got = ('exc', type(e).__name__, str(e)[:160])
+                            results.append((tid, oi, 'other', o['f'] % len(pool), want, got))
                         elif op == 'chain':
                             fa = pool[o['f'] % len(pool)]
                             fb = pool[o['g'] % len(pool)]
@@ -795,6 +812,8 @@ class C13(BaseCheck):
                     # a result obtained earlier changed under the caller's feet: no solo evaluation can excuse that
                     del viol['solo']
                     viol['clause'] = 'kept-result-changed'
+        if viol and viol.get('solo') and viol['detail'].get('kind') == 'other':
+            viol['solo']['spec2'] = spec2
         if viol and viol.get('solo') and viol['detail'].get('kind') == 'chain':
             # the pristine-process confirmation must evaluate the same chain
             last = [rec for rec in results + post if rec[2] == 'chain' and rec[0] == viol['detail']['thread'] and rec[1] == viol['detail']['op']]
